@@ -1,10 +1,11 @@
 SPECIFICATION MCSpec
 CONSTANTS
-  MaxLeaves = 8
+  MaxLeaves = 6
   WithSubtrees = TRUE
   MaxSteps = 40
   Mut = "none"
   FullRewindSets = FALSE
 VIEW ViewNoLen
 INVARIANT Refinement
+INVARIANT EmitStates
 CHECK_DEADLOCK FALSE
